@@ -56,6 +56,8 @@ def gen_scenario(batch_seed, i, tier):
             routes.append('seq_cli')
     else:
         routes = ['stream', 'path', 'named_stream', 'file_handle']
+        if rng.random() < 0.4:
+            routes.append('path_twice')
         if kind == 'png':
             routes.append('png_uri')
         if kind == 'svg':
@@ -138,10 +140,20 @@ def execute(sc):
                 p = 'dir/path-%s.%s' % (tag, ext)
                 sym.save(p, **skw)
                 return Outcome(r, fs.files.get(p), files=stamp_files(before), extra=p)
+            if r == 'path_twice':
+                p = 'dir/twice-%s.%s' % (tag, ext)
+                sym.save(p, **skw)
+                first = fs.files.get(p)
+                sym.save(p, **skw)
+                o = Outcome(r, fs.files.get(p), files=stamp_files(before), extra=p)
+                o.first = first
+                return o
             if r == 'named_stream':
                 out = world.SimStream('binary' if binary else 'text', name='named-%s.%s' % (tag, ext), plan=w.plan, label='named-' + tag)
                 sym.save(out, **skw)
-                return Outcome(r, _b(out.getvalue()), files=stamp_files(before))
+                o = Outcome(r, _b(out.getvalue()), files=stamp_files(before))
+                o.closed_by_save = out.closed
+                return o
             if r == 'nonseekable':
                 out = world.SimStream('binary' if binary else 'text', seekable=False, plan=w.plan, label='nonseekable-' + tag)
                 sym.save(out, kind=kind, **skw)
@@ -309,7 +321,7 @@ def execute(sc):
     # ---------------- single symbol
     if not sc['seq']:
         # option sets the serialiser refuses: every route must refuse
-        docroutes = [o for o in outcomes if o.route in ('stream', 'path', 'named_stream', 'file_handle', 'png_uri', 'svg_uri',
+        docroutes = [o for o in outcomes if o.route in ('stream', 'path', 'path_twice', 'named_stream', 'file_handle', 'png_uri', 'svg_uri',
                                                         'svgz', 'cli', 'cli_svgz', 'nonseekable')]
         refusing = [o for o in docroutes if o.err and o.err.startswith('ValueError')]
         if refusing and all(o in refusing for o in docroutes if not fail_allowed(o)) and not any(o.route in ('cli', 'cli_svgz') and o.proc['status'] == 0 for o in docroutes):
@@ -349,7 +361,9 @@ def execute(sc):
                     counters['documents_compared'] = counters.get('documents_compared', 0) + 1
         # exactly the named file, closed
         for o in outcomes:
-            if o.route in ('path', 'svgz', 'cli', 'cli_svgz') and o.err is None:
+            if o.route == 'named_stream' and o.err is None and getattr(o, 'closed_by_save', False):
+                viols.append(_viol('c12.files', 'save() closed the (named) stream handed in by the caller', route=o.route))
+            if o.route in ('path', 'path_twice', 'svgz', 'cli', 'cli_svgz') and o.err is None:
                 if sorted(o.files) != [o.extra]:
                     viols.append(_viol('c12.files', 'route %s created %s instead of exactly [%r]' % (o.route, sorted(o.files), o.extra), route=o.route))
                 elif not fs.complete(o.extra):
